@@ -25,16 +25,18 @@ use std::sync::{Arc, Mutex};
 static LOG: Mutex<Vec<String>> = Mutex::new(Vec::new());
 static NAMES: Mutex<Option<Names>> = Mutex::new(None);
 
-fn log(s: String) { LOG.lock().unwrap_or_else(|e| e.into_inner()).push(s); }
+fn log(s: String) { let mut l = LOG.lock().unwrap_or_else(|e| e.into_inner()); if l.len() < 200_000 || s.starts_with("panic") { l.push(s); } }
 // runaway guard: on the unchanged crate a program's bodies run a bounded number of times (scripts are indexed by the
 // run number); a change that resets a system's state can make a self-running script loop forever
 static RUNS: std::sync::atomic::AtomicUsize = std::sync::atomic::AtomicUsize::new(0);
-const RUN_BUDGET: usize = 2000;
+const RUN_BUDGET: usize = 600;
 fn over_budget() -> bool
 {
     let n = RUNS.fetch_add(1, std::sync::atomic::Ordering::Relaxed);
-    if n == RUN_BUDGET { log("panic run-budget-exceeded".to_string()); }
-    n >= RUN_BUDGET
+    // unwind out of the whole top-level operation (caught by the driver, which logs `panic` and stops the program):
+    // merely skipping the body's actions would still let an exponential number of already queued commands run
+    if n >= RUN_BUDGET { panic!("run-budget-exceeded"); }
+    false
 }
 
 #[derive(Default, Clone)]
@@ -105,7 +107,7 @@ pub enum DynTrig
     EIns(u32, Entity), EMut(u32, Entity), ERem(u32, Entity), Dsp(Entity), Nil,
 }
 
-pub const MAX_BUNDLE: usize = 8;
+pub const MAX_BUNDLE: usize = 24;
 
 #[derive(Clone, Copy, Debug)]
 pub struct DynBundle { n: usize, t: [DynTrig; MAX_BUNDLE] }
